@@ -140,6 +140,27 @@ def _entries():
     add('forall with foreign set after an own one',
         lambda a, b: a['m'].st(((a['x'][:2] * a['z']).sum() <= 5).forall(
             a['z'] >= -1, a['z'] <= 1).forall(b['z'] >= -1, b['z'] <= 1)), fronts1=['ro'])
+    # algebra on an expression that is already bi-affine (decision times own random)
+    own = lambda a: (a['x'][:2] * a['z']).sum()      # noqa: E731
+    own_v = lambda a: a['x'][:2] * a['z']            # noqa: E731
+    add('bi-affine plus foreign random', lambda a, b: a['m'].st(own(a) + b['z'][1] <= 1))
+    add('foreign random plus bi-affine', lambda a, b: a['m'].st(b['z'][1] + own(a) <= 1))
+    add('bi-affine minus foreign random', lambda a, b: a['m'].st(own(a) - b['z'][1] <= 1))
+    add('foreign random minus bi-affine', lambda a, b: a['m'].st(b['z'][1] - own(a) <= 1))
+    add('bi-affine compared with foreign random', lambda a, b: a['m'].st(own_v(a) <= b['z']))
+    add('bi-affine plus foreign random vector', lambda a, b: a['m'].st(own_v(a) + b['z'] <= 1))
+    add('bi-affine plus foreign affine of random',
+        lambda a, b: a['m'].st(own(a) + (2 * b['z']).sum() + 1 <= 1))
+    add('bi-affine plus foreign bi-affine',
+        lambda a, b: a['m'].st(own(a) + (b['x'][:2] * b['z']).sum() <= 1))
+    add('bi-affine plus foreign decision', lambda a, b: a['m'].st(own(a) + b['x'][0] <= 1))
+    add('bi-affine times foreign-free then foreign decision',
+        lambda a, b: a['m'].st(2 * own(a) - b['x'].sum() <= 1))
+    add('rule plus foreign random', lambda a, b: a['m'].st(a['y'].sum() + b['z'][0] <= 1),
+        fronts1=['ro'])
+    add('rule times own random plus foreign random',
+        lambda a, b: a['m'].st(a['y'][0] + a['x'][0] * a['z'][0] + b['z'][0] <= 1),
+        fronts1=['ro'])
     add('objective redefinition (min, min)', lambda a, b: a['m'].min(a['x'].sum()))
     add('objective redefinition (min, max)', lambda a, b: a['m'].max(a['x'].sum()))
     add('objective redefinition (minmax/minsup again)',
